@@ -14,9 +14,9 @@
 From Coq Require Import List Arith Bool NArith Lia.
 Import ListNotations.
 
-Definition blk := nat.
-Definition pvar := nat.
-Definition lvar := nat.
+Notation blk := nat (only parsing).
+Notation pvar := nat (only parsing).
+Notation lvar := nat (only parsing).
 
 Inductive rcode := OK | ENOMEM | EOTHER.
 
